@@ -21,10 +21,12 @@ sys.path.insert(0, os.path.join(VERIF, 'tools'))
 import weave as W
 
 BASE_DEFS = ['-D__PTHREAD', '-DAdd_', '-DUSE_VENDOR_BLAS', '-DNDEBUG']
-PRECS = {'d': dict(p='d', T='double', R='double', P='D', cplx='0'),
-         's': dict(p='s', T='float', R='float', P='S', cplx='0'),
-         'z': dict(p='z', T='doublecomplex', R='double', P='Z', cplx='1'),
-         'c': dict(p='c', T='complex', R='float', P='C', cplx='1')}
+_D = dict(R='double', r='d', eps='1.1102230246251565e-16', sfmin='2.2250738585072014e-308')
+_S = dict(R='float', r='s', eps='5.9604644775390625e-8f', sfmin='1.17549435082228751e-38f')
+PRECS = {'d': dict(p='d', T='double', P='D', cplx='0', **_D),
+         's': dict(p='s', T='float', P='S', cplx='0', **_S),
+         'z': dict(p='z', T='doublecomplex', P='Z', cplx='1', **_D),
+         'c': dict(p='c', T='complex', P='C', cplx='1', **_S)}
 
 def sh(cmd, cwd=None, timeout=None, mem_gb=None, stdout=None):
     pre = None
@@ -77,28 +79,39 @@ def instances(u, tier):
         out.append((nm, inst))
     return out
 
-def normalize_spec(text):
-    """join continuation lines (lines starting with whitespace) onto the clause before."""
+def normalize_spec(text, dirs=()):
+    """join continuation lines (lines starting with whitespace) onto the clause before; expand @include."""
     out = []
+    lines = []
     for raw in text.split('\n'):
+        if raw.startswith('@include'):
+            nm = raw.split()[1]
+            for d in list(dirs) + [os.path.join(VERIF, 'specs')]:
+                if os.path.exists(os.path.join(d, nm)):
+                    lines += open(os.path.join(d, nm)).read().split('\n'); break
+            else:
+                raise W.WeaveError('spec include not found: ' + nm)
+        else:
+            lines.append(raw)
+    for raw in lines:
         if raw[:1] in (' ', '\t') and raw.strip() and out and not out[-1].startswith('@') and not raw.strip().startswith('//'):
             out[-1] += ' ' + raw.strip()
         else:
             out.append(raw.rstrip())
     return '\n'.join(out)
 
-def expand_spec(text, defs, work, tag):
+def expand_spec(text, defs, work, tag, incdirs=(), headers=()):
     """macro-expand clause text with contracts/wf.h (the woven TU is already preprocessed)."""
     src = os.path.join(work, f'spec_{tag}.in')
-    lines = ['#include "wf.h"']
-    for ln in normalize_spec(text).split('\n'):
+    lines = ['#include "wf.h"'] + ['#include "%s"' % h for h in headers]
+    for ln in normalize_spec(text, incdirs).split('\n'):
         s = ln.strip()
         if s.startswith('@'):
             lines.append('@@ ' + s)       # keep directives away from macro expansion quirks
         else:
             lines.append(ln)
     open(src, 'w').write('\n'.join(lines) + '\n')
-    rc, out, err, _ = sh(['gcc', '-E', '-P', '-x', 'c', '-DSPEC_EXPAND', '-I', os.path.join(VERIF, 'contracts')] + defs + [src])
+    rc, out, err, _ = sh(['gcc', '-E', '-P', '-x', 'c', '-DSPEC_EXPAND', '-I', os.path.join(VERIF, 'contracts')] + [x for d in incdirs for x in ('-I', d)] + defs + [src])
     if rc != 0:
         raise W.WeaveError('spec preprocessing failed: ' + err[-400:])
     res = []
@@ -133,8 +146,13 @@ def run_instance(u, nm, inst, tier, keep=False):
         specs_by_src = {}
         spec_text = ''
         if u.get('spec'):
-            spec_text = subst(open(os.path.join(u['dir'], u['spec'])).read(), inst)
-            spec_text = expand_spec(spec_text, defs, work, 'main')
+            spec_text = open(os.path.join(u['dir'], u['spec'])).read()
+            spec_text = subst(normalize_spec(spec_text, [u['dir']]), inst)
+            for hname in u.get('spec_headers', []):
+                hp = os.path.join(u['dir'], hname)
+                if not os.path.exists(hp): hp = os.path.join(VERIF, 'specs', hname)
+                open(os.path.join(work, hname), 'w').write(subst(open(hp).read(), inst))
+            spec_text = expand_spec(spec_text, defs, work, 'main', [work, u['dir']], u.get('spec_headers', []))
         specs = W.parse_spec(spec_text) if spec_text else []
         sources = [subst(s, inst) for s in ([u['source']] if isinstance(u['source'], str) else u['source'])]
         cmap = {}
@@ -182,19 +200,32 @@ def run_instance(u, nm, inst, tier, keep=False):
         if rc != 0:
             res['status'] = 'error'; res['notes'].append('goto-cc: ' + (err or out)[-1500:]); return res
         # 3. contracts instrumentation
-        cmd = ['goto-instrument', '--dfcc', entry]
-        if u.get('enforce'):
-            cmd += ['--enforce-contract', subst(u['enforce'], inst)]
-        for g in u.get('replace', []):
-            cmd += ['--replace-call-with-contract', subst(g, inst)]
-        if u.get('loop_contracts', True):
-            cmd += ['--apply-loop-contracts']
-        cmd += u.get('instrument', [])
-        cmd += [a, b]
-        res['cmds'].append(' '.join(cmd))
-        rc, out, err, _ = sh(cmd, cwd=work, timeout=600, mem_gb=16)
-        if rc != 0:
-            res['status'] = 'error'; res['notes'].append('goto-instrument: ' + (err + out)[-2500:]); return res
+        mode = u.get('mode', 'dfcc')
+        if mode == 'dfcc':
+            steps = [['goto-instrument', '--dfcc', entry]
+                     + (['--enforce-contract', subst(u['enforce'], inst)] if u.get('enforce') else [])
+                     + [x for g in u.get('replace', []) for x in ('--replace-call-with-contract', subst(g, inst))]
+                     + (['--apply-loop-contracts'] if u.get('loop_contracts', True) else [])
+                     + u.get('instrument', []) + [a, b]]
+        else:
+            # legacy (non-DFCC) instrumentation: static frame checks, far smaller formulas on large functions
+            a1 = os.path.join(work, 'a1.gb'); a2 = os.path.join(work, 'a2.gb')
+            steps = [['goto-instrument', '--add-library', a, a1]]
+            if u.get('loop_contracts', True) and any(sp['loops'] for sp in specs):
+                steps.append(['goto-instrument', '--apply-loop-contracts', a1, a2])
+            else:
+                a2 = a1
+            last = ['goto-instrument']
+            if u.get('enforce'):
+                last += ['--enforce-contract', subst(u['enforce'], inst)]
+            for g in u.get('replace', []):
+                last += ['--replace-call-with-contract', subst(g, inst)]
+            steps.append(last + u.get('instrument', []) + [a2, b])
+        for cmd in steps:
+            res['cmds'].append(' '.join(cmd))
+            rc, out, err, _ = sh(cmd, cwd=work, timeout=600, mem_gb=16)
+            if rc != 0:
+                res['status'] = 'error'; res['notes'].append('goto-instrument: ' + (err + out)[-2500:]); return res
         # 4. cbmc
         to = int(inst.get('timeout', u.get('timeout', 600)))
         flags = ['--bounds-check', '--pointer-check', '--signed-overflow-check', '--div-by-zero-check',
@@ -220,6 +251,8 @@ def run_instance(u, nm, inst, tier, keep=False):
                 t = m.get('messageText', '')
                 if 'ignoring forall' in t or 'ignoring exists' in t: ignoring = True
                 if m['messageType'] == 'ERROR': errors.append(t)
+            if m.get('messageType') == 'STATUS-MESSAGE' and 'variables,' in m.get('messageText', '') and 'formula' not in res:
+                res['formula'] = m['messageText']
         if results is None:
             res['status'] = 'error'; res['notes'].append('cbmc gave no result: ' + ' | '.join(errors)[-800:] + err[-300:]); return res
         if ignoring:
@@ -237,9 +270,14 @@ def run_instance(u, nm, inst, tier, keep=False):
                 kind = pid.split('.')[-2] if pid.count('.') >= 2 else pid
                 name = f'{fn}.{section}.{lab}:{kind}'
                 clause = txt
+            elif ('LOOP', os.path.basename(fil), line) in cmap and ('loop' in desc.lower() or 'decreases' in desc.lower()):
+                fn, lp = cmap[('LOOP', os.path.basename(fil), line)]
+                kind = ('invariant_base' if 'before entry' in desc else 'invariant_step' if 'preserved' in desc else
+                        'decreases' if 'decreases' in desc else 'instrumentation')
+                name = f'{fn}.{lp}:{kind}'
             elif fil and not fil.startswith('<'):
                 name = f'{pid}@{os.path.basename(fil)}:{line}'
-            if 'loop_invariant' in pid: has_loop_ob = True
+            if 'loop_invariant' in pid or 'loop invariant' in desc: has_loop_ob = True
             ob = dict(name=name, cbmc_id=pid, desc=desc, status=st, file=fil, line=line,
                       function=loc.get('function', ''))
             if clause: ob['clause'] = clause
@@ -327,7 +365,7 @@ def main():
             results.append(r)
             nfail = sum(1 for o in r['obligations'] if o['status'] == 'FAILURE' and o['kind'] != 'canary')
             print(f"[{r['unit']}] {r['status']} label={r['label']} obligations={len(r['obligations'])} failed={nfail} "
-                  f"canaries={r.get('canaries_failed', 0)}/{r.get('canaries', 0)} {r['wall_s']}s {' ; '.join(r['notes'])[:600]}", flush=True)
+                  f"canaries={r.get('canaries_failed', 0)}/{r.get('canaries', 0)} {r['wall_s']}s [{r.get('formula','')}] {' ; '.join(r['notes'])[:600]}", flush=True)
     results.sort(key=lambda r: r['unit'])
     import replay as RP
     known, fixed = load_known()
